@@ -396,6 +396,11 @@ func (g *goTranslator) tr(x Expr) (string, bool) {
 			case "isnil":
 				a, ok := g.trRaw(n.Args[0])
 				return fmt.Sprintf("(%s == nil)", a), ok
+			case "ref":
+				a, ok := g.trRaw(n.Args[0])
+				return fmt.Sprintf("func() int { if %s == nil { return 0 }; return 1 }()", a), ok
+			case "backing", "offset", "brk", "typeis", "unbox":
+				return g.failf("%s() has no Go counterpart", id.Name)
 			case "int":
 				a, ok := g.trRaw(n.Args[0])
 				return fmt.Sprintf("int(%s)", a), ok
